@@ -109,6 +109,15 @@ def history(I, kind="complex", length=3, twin=False):
                 blob = torch.load(path)
                 if blob.get("note") != "x" or blob.get("nested") != {"a": [1, 2]} or not torch.equal(blob.get("t"), torch.tensor([1.5, -2.0])):
                     return False, "%s: stored metadata wrong" % tag
+                # the file written by THIS save holds the parameters the model has NOW (whatever happened since an earlier save)
+                for net in A.networks:
+                    cur = getattr(A, net).state_dict()
+                    got = blob.get(net)
+                    if not isinstance(got, dict) or set(got) != set(cur):
+                        return False, "%s: file lacks the parameters of %s" % (tag, net)
+                    for k_, v_ in cur.items():
+                        if got[k_].shape != v_.shape or not torch.equal(got[k_], v_):
+                            return False, "%s: file holds other values of %s.%s than the model has at the time of saving" % (tag, net, k_)
             elif op in (4, 5, 6, 7):
                 if f not in stored:
                     continue
